@@ -19,6 +19,7 @@ import (
 	"os/exec"
 	"reflect"
 	"sort"
+	"strconv"
 	"strings"
 	"testing"
 	"time"
@@ -56,6 +57,15 @@ func c14sGen(rnd *vRand, n int) []c14sCase {
 	add("stream", mk(&client.Message{Value: []byte{}, Key: []byte{}}))
 	add("stream", mk(&client.Message{AckInbox: "c14s.acks", CorrelationId: "cid", AckPolicy: client.AckPolicy_LEADER, Value: []byte("a")}))
 	add("stream", mk(&client.Message{AckInbox: "c14s.acks", CorrelationId: "cid", AckPolicy: client.AckPolicy_ALL, Value: []byte("a"), Offset: 77}))
+	// very many headers: the stored format counts them in 16 bits
+	for _, nh := range []int{32766, 32768, 40000, 65533, 65534, 70000} {
+		hs := make(map[string][]byte, nh)
+		for i := 0; i < nh; i++ {
+			hs[strconv.FormatInt(int64(i), 36)] = nil
+		}
+		hs["last"] = []byte("x")
+		add("stream", mk(&client.Message{Value: []byte("many headers"), Headers: hs}))
+	}
 	// a stream on a WILDCARD subject: the NATS subject of a message is client input too (it ends up in
 	// the message's `subject` header and in the ack's MsgSubject). Kinds wild:<hex of the last token>.
 	for _, tok := range []string{"x", "\xff\xfe", "caf\xc3", "\xc0\x80", strings.Repeat("t", 300)} {
@@ -195,7 +205,13 @@ func TestVerifC14ServerChild(t *testing.T) {
 		cases = append(cases, c14sCase{p[0], d})
 	}
 	cleanupStorage(t)
-	s := vStartSingleNode(t, "c14s", c14sPort, nil)
+	limit := 0 // clustering.replication.max.bytes of the child (0 = default): larger messages are refused with a TOO_LARGE nack
+	fmt.Sscanf(os.Getenv("VERIF_C14S_MAXBYTES"), "%d", &limit)
+	s := vStartSingleNode(t, "c14s", c14sPort, func(c *Config) {
+		if limit > 0 {
+			c.Clustering.ReplicationMaxBytes = int64(limit)
+		}
+	})
 	defer func() { s.Stop(); cleanupStorage(t) }()
 	ctx, cancel := context.WithTimeout(context.Background(), 10*time.Second)
 	if _, err := s.api.CreateStream(ctx, &client.CreateStreamRequest{Name: "c14s", Subject: "c14s.in", Partitions: 1, ReplicationFactor: 1}); err != nil {
@@ -278,6 +294,29 @@ func TestVerifC14ServerChild(t *testing.T) {
 		c := cases[i]
 		say("start %d", i)
 		before := p.log.NewestOffset()
+		if limit > 0 && len(c.data) > limit+64 && (c.subject == "stream" || strings.HasPrefix(c.subject, "wild:") || strings.HasPrefix(c.subject, "reply:")) {
+			// beyond the replication limit: refused (a nack when the envelope asks for one), never stored, and the server lives on
+			subj, reply, lg := subjects["stream"], "c14s.reply", p.log
+			if strings.HasPrefix(c.subject, "wild:") {
+				tok, _ := hex.DecodeString(strings.TrimPrefix(c.subject, "wild:"))
+				subj, lg = "c14w."+string(tok), pw.log
+			} else if strings.HasPrefix(c.subject, "reply:") {
+				r, _ := hex.DecodeString(strings.TrimPrefix(c.subject, "reply:"))
+				subj, reply, lg = "c14w.x", string(r), pw.log
+			}
+			b0 := lg.NewestOffset()
+			if err := nc.PublishRequest(subj, reply, c.data); err != nil {
+				say("note %d publish refused by the NATS client: %v", i, err)
+			}
+			nc.Flush()
+			time.Sleep(60 * time.Millisecond)
+			if lg.NewestOffset() != b0 {
+				say("spec %d too-large-message-stored", i)
+			} else {
+				say("ok %d", i)
+			}
+			continue
+		}
 		if strings.HasPrefix(c.subject, "wild:") || strings.HasPrefix(c.subject, "reply:") {
 			subj, reply := "c14w.x", "c14s.reply"
 			if strings.HasPrefix(c.subject, "wild:") {
@@ -349,15 +388,32 @@ func TestVerifC14ServerChild(t *testing.T) {
 					unstorable = true // cannot be encoded: refused, not stored
 				}
 			}
+			n := len(msg.Headers)
+			if _, ok := msg.Headers["subject"]; !ok {
+				n++
+			}
+			if _, ok := msg.Headers["reply"]; !ok {
+				n++
+			}
+			if n > 65535 {
+				unstorable = true // more headers than the stored format's 16-bit count: refused, not stored
+			}
 		}
 		dl := time.Now().Add(2 * time.Second)
 		for p.log.NewestOffset() == before && time.Now().Before(dl) && !unstorable {
 			time.Sleep(time.Millisecond)
 		}
 		if unstorable {
-			time.Sleep(20 * time.Millisecond)
+			// a large payload takes a while to get through the server
+			for dl := time.Now().Add(20*time.Millisecond + time.Duration(len(c.data)/500)*time.Millisecond); time.Now().Before(dl) && p.log.NewestOffset() == before; {
+				time.Sleep(2 * time.Millisecond)
+			}
 			if p.log.NewestOffset() != before {
 				say("spec %d unstorable-message-stored", i)
+				select { // keep the subscriber in step with the cases
+				case <-delivered:
+				case <-time.After(3 * time.Second):
+				}
 			} else {
 				say("ok %d", i)
 			}
@@ -389,6 +445,17 @@ func TestVerifC14ServerChild(t *testing.T) {
 			}
 			if bad {
 				say("spec %d headers-differ", i)
+				continue
+			}
+			want := len(msg.Headers)
+			if _, ok := msg.Headers["subject"]; !ok {
+				want++
+			}
+			if _, ok := msg.Headers["reply"]; !ok {
+				want++
+			}
+			if len(got.Headers) != want {
+				say("spec %d header-count-differs got=%d want=%d", i, len(got.Headers), want)
 				continue
 			}
 		}
@@ -436,6 +503,11 @@ func TestVerifC14Server(t *testing.T) {
 			return
 		}
 	}
+	c14sRunCases(t, res, cases, 0)
+}
+
+// c14sRunCases runs the cases against child servers (restarted after every crash) and records the outcomes.
+func c14sRunCases(t *testing.T, res *vResult, cases []c14sCase, maxBytes int) {
 	dir, err := os.MkdirTemp("", "verif-c14s-")
 	if err != nil {
 		t.Fatal(err)
@@ -455,7 +527,7 @@ func TestVerifC14Server(t *testing.T) {
 		prog := fmt.Sprintf("%s/progress%d", dir, round)
 		cctx, ccancel := context.WithTimeout(context.Background(), 240*time.Second)
 		cmd := exec.CommandContext(cctx, os.Args[0], "-test.run", "^TestVerifC14ServerChild$", "-test.timeout", "200s")
-		cmd.Env = append(os.Environ(), "VERIF_C14S_CASES="+casesFile, "VERIF_C14S_PROGRESS="+prog, fmt.Sprintf("VERIF_C14S_START=%d", start))
+		cmd.Env = append(os.Environ(), "VERIF_C14S_CASES="+casesFile, "VERIF_C14S_PROGRESS="+prog, fmt.Sprintf("VERIF_C14S_START=%d", start), fmt.Sprintf("VERIF_C14S_MAXBYTES=%d", maxBytes))
 		out, runErr := cmd.CombinedOutput()
 		ccancel()
 		data, _ := os.ReadFile(prog)
@@ -505,6 +577,49 @@ func TestVerifC14Server(t *testing.T) {
 		start = last + 1
 	}
 	res.Sample(map[string]string{"case": line(0)})
+}
+
+// TestVerifC14ServerSmallLimit: the same server with clustering.replication.max.bytes = 1024, so that the paths taken
+// by messages BEYOND the limit (refusal, TOO_LARGE nack built from the message's subject) are reached with payloads of a
+// couple of kilobytes: plain and envelope payloads, with and without an AckInbox, on the plain subject, on wildcard
+// subjects (ascii / not valid UTF-8) and with reply subjects that are not valid UTF-8; small payloads in between.
+func TestVerifC14ServerSmallLimit(t *testing.T) {
+	res := vNewResult("C14", "[server level, replication limit 1024 bytes] payloads of 2-3 KB (refused: TOO_LARGE nack when an AckInbox is given, nothing stored) and small ones in between, as plain payloads and as publish envelopes with/without AckInbox, on the stream subject, on wildcard subjects (ascii, three byte strings that are not valid UTF-8) and with such reply subjects; "+
+		"a crash of the child is attributed to the payload in flight; non-trivial = beyond the limit; distinct by (subject, payload)")
+	defer res.Write(t)
+	mk := func(m *client.Message) []byte { b, _ := pb.Marshal(m); return c14sEnvelope(0, b) }
+	big := bytes.Repeat([]byte("B"), 2500)
+	var cases []c14sCase
+	add := func(k string, d []byte) { cases = append(cases, c14sCase{k, d}) }
+	kinds := []string{"stream"}
+	for _, tok := range []string{"x", "\xff\xfe", "caf\xc3", "\xc0\x80"} {
+		kinds = append(kinds, "wild:"+hex.EncodeToString([]byte(tok)))
+	}
+	for _, rep := range []string{"r.\xff", "\xc3"} {
+		kinds = append(kinds, "reply:"+hex.EncodeToString([]byte(rep)))
+	}
+	for _, k := range kinds {
+		add(k, big)
+		add(k, mk(&client.Message{Value: big}))
+		add(k, mk(&client.Message{Value: big, AckInbox: "c14s.acks", CorrelationId: "cid", AckPolicy: client.AckPolicy_LEADER}))
+		add(k, mk(&client.Message{Value: big, AckInbox: "c14s.acks", CorrelationId: "cid", AckPolicy: client.AckPolicy_ALL, Offset: 3}))
+		add(k, mk(&client.Message{Value: []byte("small"), AckInbox: "c14s.acks", CorrelationId: "cid", AckPolicy: client.AckPolicy_LEADER}))
+		add(k, []byte("small plain"))
+	}
+	if rc := vReplayCase(t); rc != nil {
+		cases = nil
+		for _, l := range rc {
+			p := strings.Fields(l)
+			if len(p) == 3 && p[0] == "c14s" {
+				d, _ := hex.DecodeString(strings.Trim(p[2], `"`))
+				cases = append(cases, c14sCase{p[1], d})
+			}
+		}
+		if len(cases) == 0 {
+			return
+		}
+	}
+	c14sRunCases(t, res, cases, 1024)
 }
 
 func c14sTail(s string, n int) string {
